@@ -64,11 +64,43 @@ def gen_tag(rng):
     units = [u for u in units]
     return shape, dims, pos, extv, units
 
+# (interval, offset, sample count) where the last coordinate (n-1)*interval + offset is sensitive to HOW it is rounded (a fused
+# multiply-add lands one ulp lower): the end of an unspecified sampled dimension is computed from it
+ROUNDING_SENSITIVE = [(0.1, 0.3, 4), (0.1, 0.3, 7), (0.1, 0.3, 13), (0.1, -0.2, 12), (0.1, 0.5, 8), (0.1, -0.7, 8), (0.1, 0.1, 13), (0.001, 0.2, 18),
+                      (0.001, 0.1, 10), (1.0 / 3.0, 0.2, 7), (1.0 / 3.0, -0.7, 12), (7.3, 0.2, 6), (7.3, 0.1, 8), (0.05, 0.1, 8), (0.05, -0.1, 12)]
+
+def gen_padded_tag(rng):
+    """fewer position entries than dimensions; the unspecified dimensions are sampled ones whose last coordinate is sensitive to
+    rounding, set dimensions after a sampled / range dimension that does not start at 0, range dimensions with spare ticks"""
+    rank = rng.choice([2, 2, 3])
+    kinds = [rng.choice(['S', 'R', 'T', 'F']) for _ in range(rank)]
+    kinds[-1] = rng.choice(['S', 'S', 'S', 'T', 'F', 'R'])
+    shape, dims = G.make_array(rng, rank=rank, kinds=kinds, unit_prob=0.3)
+    for i, d in enumerate(dims):
+        if d.kind == 'S' and rng.random() < 0.8:
+            d.si, d.off, n = rng.choice(ROUNDING_SENSITIVE)
+            d.n = shape[i] = n
+            d.coords = [k * d.si + d.off for k in range(n + 6)]
+    npos = rng.randint(0, rank - 1)
+    pos = [G.pick_position(dims[i], rng) for i in range(npos)]
+    ext = [G.pick_extent(dims[i], pos[i], rng) for i in range(npos)]
+    extv = rng.choice([None, ext, ext])
+    units = [] if rng.random() < 0.6 else [dims[i].own_unit() for i in range(npos)]
+    return shape, dims, pos, extv, units
+
 def cases(tier, seed, rng):
     from vlib.runner import Case
     n = 1200 if tier == 'quick' else 30000
     out = []
     batch = []
+    for k in range(150 if tier == 'quick' else 3000):
+        shape, dims, pos, ext, units = gen_padded_tag(rng)
+        for rm in ('incl', 'excl'):
+            batch.append(tag_line('tag_data', shape, dims, pos, ext, units, rm))
+        if len(batch) >= 200:
+            out.append(Case(batch, 'gen:padded-tag')); batch = []
+    if batch:
+        out.append(Case(batch, 'gen:padded-tag')); batch = []
     for k in range(n):
         shape, dims, pos, ext, units = gen_tag(rng)
         for rm in ('incl', 'excl'):
